@@ -24,4 +24,10 @@ def resultIs (r : Except Exc (FD × DataV)) (expected : List Bool) : Bool :=
   | .ok p => p.1.result == expected
   | .error _ => false
 
+/-- Bool-valued comparison of an outcome with an expected value (for kernel-evaluated examples) -/
+def valueIs (r : R) (expected : PyVal) : Bool :=
+  match r with
+  | .ok v => PyVal.pyEq v expected && PyVal.pyEq expected v
+  | .error _ => false
+
 end ValidaProofs
